@@ -835,6 +835,21 @@ theorem adaptive_history (n : Nat) (hn : 0 < n) (cs : List (Option (List Rat × 
 example : (adaptiveRun (adaptive0 3) ([none, thrCall (1/2) (some [0, 1, 1/2])] ++ [some ([3, 1, 2], [1/2, 1/2, 1/2])]))[2]? =
     some (.ok [(1, 0), (2, 1), (0, 2)]) := by decide +kernel
 
+/-- **Every returned row — kept or replaced — is a whole row of a fresh sample**, so whatever holds for every row of every
+    fresh uniform sample (`good (t, i)`: "row `i` of the sample of call `t` lies in the domain *at the parameter row that call
+    handed in*" — that is property C01 for the inner uniform sampler) holds for every row of every point set an adaptive sampler
+    ever returns: rows are replaced as a whole (coordinates and parameter columns together), never mixed. -/
+theorem adaptive_rows_inherit (good : Row → Prop) (n : Nat) (hn : 0 < n) (hfresh : ∀ t i, i < n → good (t, i))
+    (cs : List (Option (List Rat × List Rat))) (j : Nat) (out : List Row)
+    (h : (adaptiveRun (adaptive0 n) cs)[j]? = some (.ok out)) : ∀ row ∈ out, good row := by
+  obtain ⟨hlen, hrows⟩ := adaptive_count n hn cs j out h
+  intro row hr
+  obtain ⟨i, hi, rfl⟩ := List.getElem_of_mem hr
+  have h2 := (hrows i _ (List.getElem?_eq_getElem hi)).1
+  have : out[i] = ((out[i]).1, i) := Prod.ext rfl h2
+  rw [this]
+  exact hfresh _ _ (by omega)
+
 example : adaptiveRun (adaptive0 3) [none, thrCall (1/2) (some [0, 1, 1/2]), thrCall (1/2) (some [1, 1, 1]), some ([0, 1], [0, 0])] =
     [.ok [(0, 0), (0, 1), (0, 2)], .ok [(1, 0), (0, 1), (0, 2)], .ok [(1, 0), (0, 1), (0, 2)], .error .shape] := by decide +kernel
 
